@@ -19,11 +19,13 @@ pub struct ModelOpts {
     /// chance of a method with >= 256 instructions
     pub big_method: u32,
     pub long_strings: bool,
+    /// chance (of 65536) of a pool with more than 32767 constants (indices with the top bit set)
+    pub huge_pool: u32,
 }
 
 impl Default for ModelOpts {
     fn default() -> Self {
-        ModelOpts { line_breaks: true, big_pool: 26, big_method: 12, long_strings: true }
+        ModelOpts { line_breaks: true, big_pool: 26, big_method: 12, long_strings: true, huge_pool: 300 }
     }
 }
 
@@ -35,7 +37,7 @@ fn gen_string(t: &mut Tape, o: &ModelOpts) -> String {
             (0..n).map(|_| (b'a' + t.pick(26) as u8) as char).collect()
         }
         2 => {
-            let n = [300usize, 1100, 9000][t.pick(3)];
+            let n = [300usize, 1100, 9000, 70_000][t.weighted(&[4, 4, 4, 1])];
             let c = ["y", "é", "👍"][t.pick(3)];
             let mut s = String::new();
             if o.line_breaks && t.flag() {
@@ -91,14 +93,15 @@ pub fn generate(t: &mut Tape, o: &ModelOpts) -> Model {
         Class,
         Bool,
     }
-    let big = o.big_pool > 0 && t.chance(o.big_pool);
-    let n = if big { 257 + t.pick(120) } else { 3 + t.pick(30) };
+    let huge = o.huge_pool > 0 && (((t.byte() as u32) << 8) | t.byte() as u32) < o.huge_pool;
+    let big = huge || (o.big_pool > 0 && t.chance(o.big_pool));
+    let n = if huge { 33_000 + t.pick(2000) } else if big { 257 + t.pick(120) } else { 3 + t.pick(30) };
     let mut kinds: Vec<K> = Vec::with_capacity(n + 4);
     // guaranteed basis so that every reference kind can be satisfied
     kinds.push(K::Str);
     kinds.push(K::Method);
     for _ in 0..n {
-        kinds.push(match t.weighted(&[6, 2, 8, if big { 1 } else { 4 }, 3, 2, 2]) {
+        kinds.push(match t.weighted(&if huge { [200, 20, 6, 1, 8, 4, 16] } else { [6, 2, 8, if big { 1 } else { 4 }, 3, 2, 2] }) {
             0 => K::Int,
             1 => K::Null,
             2 => K::Str,
